@@ -866,9 +866,72 @@ where
     found.ok_or_else(|| "no expression instruction read back".to_string())
 }
 
+/// c15.nest <version> <depth>: DW_OP_entry_value nested `depth` times around DW_OP_reg5, built without any
+/// recursion on our side, written as a DIE attribute. Nothing is dropped afterwards (dropping a deeply nested
+/// value recurses in compiler-generated code, which is not what is being observed). The layers are peeled
+/// iteratively with gimli's reader: every layer must be one entry_value whose length covers the rest.
+fn run_nest(t: &[&str]) -> String {
+    let version = u(t[1]) as u16;
+    let depth = us(t[2]);
+    let enc = Encoding { format: Format::Dwarf32, version, address_size: 8 };
+    let e = RunTimeEndian::Little;
+    let mut expr = Expression::new();
+    expr.op_reg(Register(5));
+    for _ in 0..depth {
+        let mut outer = Expression::new();
+        outer.op_entry_value(expr);
+        expr = outer;
+    }
+    let mut dwarf = Dwarf::new();
+    let id = dwarf.units.add(Unit::new(enc, LineProgram::none()));
+    {
+        let unit = dwarf.units.get_mut(id);
+        let root = unit.root();
+        let c = unit.add(root, constants::DW_TAG_variable);
+        unit.get_mut(c).set(constants::DW_AT_location, AttributeValue::Exprloc(expr));
+    }
+    let mut sections = Sections::new(EndianVec::new(e));
+    let r = dwarf.write(&mut sections);
+    std::mem::forget(dwarf);
+    if let Err(x) = r {
+        return err(&x);
+    }
+    let info = sect(&sections, SectionId::DebugInfo);
+    // header 11/12 bytes, root code, child code, then ULEB length + expression, then the null child
+    let start = if version >= 5 { 12 } else { 11 } + 2;
+    let mut r = EndianSlice::new(&info[start..], e);
+    let len = match gimli::leb128::read::unsigned(&mut r) {
+        Ok(l) => l as usize,
+        Err(_) => return "readback-mismatch prefix".into(),
+    };
+    if r.len() != len + 1 {
+        return format!("readback-mismatch length_prefix_{}_emitted_{}", len, r.len().wrapping_sub(1));
+    }
+    let mut cur: &[u8] = &r.slice()[..len];
+    let total = len;
+    for k in 0..depth {
+        let ex = read::Expression(EndianSlice::new(cur, e));
+        let mut it = ex.operations(enc);
+        match it.next() {
+            Ok(Some(read::Operation::EntryValue { expression })) => {
+                if !matches!(it.next(), Ok(None)) {
+                    return format!("readback-mismatch layer_{}_has_trailing_operations", k);
+                }
+                cur = expression.slice();
+            }
+            other => return format!("readback-mismatch layer_{}_{:?}", k, other.map(|_| ())).replace(' ', "_"),
+        }
+    }
+    if cur != [0x55] {
+        return "readback-mismatch innermost".into();
+    }
+    format!("ok {}", total)
+}
+
 pub fn run(t: &[&str]) -> String {
     match t[0] {
-        "c15.expr" | "c15.nest" => {
+        "c15.nest" => run_nest(t),
+        "c15.expr" => {
             let ctx = t[1];
             let version = u(t[2]) as u16;
             let format = if t[3] == "1" { Format::Dwarf64 } else { Format::Dwarf32 };
